@@ -1,5 +1,6 @@
 """Random well-typed term generation for the element-wise operator subset (B2 drivers), with
 conservative magnitude bounds (see DESIGN.md 3.1: TLC integers are 32 bit)."""
+import json
 from fractions import Fraction
 
 from . import gen
@@ -23,6 +24,8 @@ def shape(t):
         return 'if(%s,%s,%s)' % (shape(t['c']), shape(t['t']), shape(t['e']))
     if k == 'case':
         return 'case'
+    if k == 'udo':
+        return 'udo(%s)' % shape(t['body'])
     if k == 'exists':
         return 'exists_in(%s,%s,%s)' % (shape(t['l']), shape(t['r']), t['retain'])
     if k == 'memb':
@@ -831,3 +834,25 @@ def random_exists_units(rnd, n):
         r = rnd.choice([var('DS_2'), var('DS_2'), {'k': 'clause', 'op': 'filter', 'ds': var('DS_2'), 'items': [{'k': 'un', 'op': 'isnull', 'x': var('Me_1')}]}])
         units.append({'id': 'ex%d' % i, 'env': env, 'term': {'k': 'exists', 'l': l, 'r': r, 'retain': rnd.choice(['default', 'all', 'true', 'false'])}, 'cc': True})
     return units
+
+
+def udo_wrap(units, rnd, share=1.0):
+    """the same statement written as a call of a user-defined operator whose body is the statement's expression over parameters:
+    R := f(DS_1, DS_2) with define operator f (p1 dataset, p2 dataset) returns dataset is <expression over p1, p2>"""
+    from . import k2
+    out = []
+    for u in units:
+        t = u['term']
+        names = sorted(n for n, d in u['env'].items() if 'comps' in d)
+        if rnd.random() > share or not names or t.get('k') in ('var', 'const', 'udo') or any('comps' not in d for d in u['env'].values()):
+            continue
+        if t.get('k') in ('hier', 'dpcheck', 'check'):
+            continue
+        params = ['p_%d' % (i + 1) for i in range(len(names))]
+        body = k2.rename_term(json.loads(json.dumps(t)), dict(zip(names, params)))
+        args = [var(n) for n in names]
+        v = dict(u)
+        v['id'] = u['id'] + '.udo'
+        v['term'] = {'k': 'udo', 'name': 'f_%d' % len(out), 'params': params, 'ptypes': ['dataset'] * len(params), 'returns': 'dataset', 'body': body, 'args': args}
+        out.append(v)
+    return out
